@@ -42,9 +42,38 @@ def rule_ex1(A: Analysis, rep, F: ExecFacts):
     g = A.cfg(fi, "plain")
     sites = [(f, c) for (f, c) in A.all_calls_to("_ReadyToRunQueue.enqueue_op")
              if f.fq != "conductor.execution.executor._ReadyToRunQueue.load"]
-    if not sites:
-        rep.bad("EX1", "enqueue gate", fi.node, "no operation is ever enqueued after a dependency finished")
     finished = fi.params[1] if len(fi.params) > 1 else None
+    # the filtered-batch spelling: `load([d for d in finished.deps_of if d.waiting_on == 0])`
+    batch = 0
+    for c in A.calls_in(fi.node, "_ReadyToRunQueue.load"):
+        arg = A.expand(c.args[0], fi) if c.args else None
+        if not isinstance(arg, (ast.ListComp, ast.GeneratorExp, ast.SetComp)) or len(arg.generators) != 1:
+            continue
+        gen = arg.generators[0]
+        x = norm(gen.target)
+        batch += 1
+        test = gen.ifs[0] if len(gen.ifs) == 1 else ast.BoolOp(op=ast.And(), values=list(gen.ifs)) if gen.ifs else None
+        guards = A.dnf(test, True, None) if test is not None else []
+        accept = [{("lt(0,%s.waiting_on)" % x, False)}, {("eq(0,%s.waiting_on)" % x, True)},
+                  {("t(%s.waiting_on)" % x, False)}, {("lt(%s.waiting_on,1)" % x, True)}]
+        off = implies(guards, accept)
+        rep.check(off is None and bool(guards) and norm(arg.elt) == x, "EX1", "enqueue gate waiting_on==0", c,
+                  "a dependent is enqueued only when its waiting_on counter is zero",
+                  "load() of a batch filtered by [%s], which does not imply %s.waiting_on == 0" % (fmt_conj(off or []), x))
+        ev = c.args[0]
+        if isinstance(ev, ast.Name):
+            defs = [st for st in walk_local(fi.node) if isinstance(st, (ast.Assign, ast.AnnAssign))
+                    and any(norm(t) == ev.id for t in (st.targets if isinstance(st, ast.Assign) else [st.target]))]
+            ev = defs[0] if len(defs) == 1 else c
+        n = g.node_of(_stmt_of(ev))
+        decs = [m for m in g.nodes if m.kind == "stmt" and any(norm(k.func.value) == finished for k in A.calls_in(m.ast, "Operation.decrement_deps_of_waiting_on"))]
+        rep.check(bool(decs) and g.all_paths_pass(g.entry, n, decs, skip_labels=is_exc), "EX1", "decrement before enqueue", c,
+                  "the finished op's dependents are decremented before the test",
+                  "decrement_deps_of_waiting_on() of the finished op does not dominate the filter")
+        rep.check(norm(gen.iter) in ("%s.deps_of" % finished, "%s._deps_of" % finished), "EX1", "all dependents considered", c,
+                  "iterates all of finished_op.deps_of", "the batch is not drawn from the whole deps_of of the finished operation")
+    if not sites and not batch:
+        rep.bad("EX1", "enqueue gate", fi.node, "no operation is ever enqueued after a dependency finished")
     for (f, c) in sites:
         if f.fq != fi.fq:
             continue  # reported by EX3
@@ -158,8 +187,11 @@ def rule_ex2(A: Analysis, rep, F: ExecFacts):
 
 def rule_ex3(A: Analysis, rep, F: ExecFacts):
     callers = sorted({f.fq.split("conductor.execution.executor.")[-1] for (f, _c) in A.all_calls_to("_ReadyToRunQueue.enqueue_op")})
-    rep.check(callers == ["Executor._process_finished_op", "_ReadyToRunQueue.load"], "EX3", "who may enqueue", None,
-              "enqueue_op is called only by load() and _process_finished_op()", "enqueue_op callers: %s" % callers)
+    lcallers = sorted({f.fq.split("conductor.execution.executor.")[-1] for (f, _c) in A.all_calls_to("_ReadyToRunQueue.load")})
+    rep.check("_ReadyToRunQueue.load" in callers and set(callers) <= {"Executor._process_finished_op", "_ReadyToRunQueue.load"}
+              and ("Executor._process_finished_op" in callers or "Executor._process_finished_op" in lcallers)
+              and set(lcallers) <= {"Executor.run_plan", "Executor._process_finished_op"}, "EX3", "who may enqueue", None,
+              "enqueue_op is called only by load() and _process_finished_op()", "enqueue_op callers: %s; load callers: %s" % (callers, lcallers))
     callers = sorted({f.fq.split("conductor.execution.executor.")[-1] for (f, _c) in A.all_calls_to("Executor._process_finished_op")})
     rep.check(callers == ["Executor._launch_ops_if_able", "Executor._wait_for_next_inflight_op"], "EX3", "who may finish", None,
               "_process_finished_op is called only from the launch loop and the wait step", "_process_finished_op callers: %s" % callers)
@@ -549,7 +581,7 @@ def rule_ex8(A: Analysis, rep, F: ExecFacts):
     # has_ops covers both queues; __len__ counts both kinds
     ho = A.fn(EXE + "_ReadyToRunQueue.has_ops")
     r = [x for x in walk_local(ho.node) if isinstance(x, ast.Return)]
-    dd = A.dnf(r[0].value, True, ho) if len(r) == 1 else []
+    dd = A.dnf(r[0].value, True, ho, inline_preds=True) if len(r) == 1 else []
     rep.check(sorted(sorted(c) for c in dd) == sorted([[("empty(self._parallel_ops)", False)], [("empty(self._sequential_ops)", False)]]),
               "EX8", "has_ops covers both queues", ho.node, "", "has_ops() is [%s]" % " | ".join(fmt_conj(c) for c in dd))
     ln = A.fn(EXE + "_InflightOperations.__len__")
